@@ -56,6 +56,50 @@ def run_operations(cases):
     return res
 
 
+def run_operations_in(cases):
+    """cases: list of (op, actual, py_args, base_key, quiet) with op in check_that_in/require_that_in/assert_that_in and py_args
+    the positional "expected" arguments (real matcher objects inside). Same real test as run_operations.
+    Returns, per case: {"checks": [...], "outcome": ("ret", [bool, ...]) | ("exc", class name, err class)}"""
+    hr = _runner()
+    import lemoncheesecake.api as lcc
+    import lemoncheesecake.matching as M
+    outcomes = [None] * len(cases)
+
+    def body():
+        for i, (op, actual, py_args, base_key, quiet) in enumerate(cases):
+            lcc.set_step("case %d" % i)
+            kwargs = {"quiet": quiet}
+            if base_key is not None:
+                kwargs["base_key"] = base_key
+            try:
+                r = getattr(M, op)(actual, *py_args, **kwargs)
+                outcomes[i] = ("ret", [bool(x) for x in r])
+            except BaseException as e:   # AbortTest, AssertionError, ValueError included: the body goes on with the next case
+                if isinstance(e, KeyboardInterrupt):
+                    raise
+                outcomes[i] = ("exc", type(e).__name__, G.err_class(e))
+
+    report = hr.run_func_in_test(body)
+    tests = list(report.all_tests())
+    if len(tests) != 1:
+        raise RuntimeError("expected one test in the report, got %d" % len(tests))
+    recorded = {}
+    for step in tests[0].get_steps():
+        if not step.description.startswith("case "):
+            continue
+        idx = int(step.description[5:])
+        for entry in step.get_logs():
+            if type(entry).__name__ != "Check":
+                raise RuntimeError("unexpected log entry %r in step %r" % (entry, step.description))
+            recorded.setdefault(idx, []).append((entry.description, entry.is_successful, entry.details))
+    res = []
+    for i in range(len(cases)):
+        if outcomes[i] is None:
+            raise RuntimeError("case %d was not executed (the test body was interrupted)" % i)
+        res.append({"checks": recorded.get(i, []), "outcome": outcomes[i]})
+    return res
+
+
 def describe(matcher, conjugate=False, negative=False):
     from lemoncheesecake.matching.matcher import MatcherDescriptionTransformer
     return matcher.build_description(MatcherDescriptionTransformer(conjugate=conjugate, negative=negative))
